@@ -10,8 +10,8 @@ Example r1_ok : reg_ok r1 = true. Proof. vm_compute. reflexivity. Qed.
 
 (* New at 0, duplicate at 8 min (both entry points), station and detector swept at 9 min 59 s: accepted and forwarded *)
 Definition hist_dup : list mevent :=
-  [MRecv [k1] []; MSt (S.Advance (8 * min)) []; MRecv [k1] []; MSt (S.Track k1) [];
-   MSt (S.Advance (119 * 1000000000)) []; MSt S.Sweep []; MDet ESweep].
+  [MRecv [k1] []; MSt [(S.Advance (8 * min))] []; MRecv [k1] []; MSt [(S.Track k1)] [];
+   MSt [(S.Advance (119 * 1000000000))] []; MSt [S.Sweep] []; MDet ESweep].
 Definition w_dup := fold_left (mstep keys1 4) hist_dup (S.init, []).
 Example dup_accepted_and_forwarded :
   station_accepts (fst w_dup) k1 = true /\ detector_forwards r1 (snd w_dup) = true /\
@@ -19,15 +19,15 @@ Example dup_accepted_and_forwarded :
 Proof. vm_compute. repeat split; reflexivity. Qed.
 
 (* two minutes later both have let go: the duplicate did not restart the station's clock *)
-Definition w_dup2 := fold_left (mstep keys1 4) [MSt (S.Advance (2 * min)) []; MSt S.Sweep []; MDet ESweep] w_dup.
+Definition w_dup2 := fold_left (mstep keys1 4) [MSt [(S.Advance (2 * min))] []; MSt [S.Sweep] []; MDet ESweep] w_dup.
 Example dup_expired_together :
   station_accepts (fst w_dup2) k1 = false /\ detector_forwards r1 (snd w_dup2) = false.
 Proof. vm_compute. split; reflexivity. Qed.
 
 (* used at 1 min, duplicate at 5 h, probe at 5 h 59 min: accepted and forwarded; hypotheses of the theorem met *)
 Definition hist_used : list mevent :=
-  [MRecv [k1] [FLostBefore; FLostAfter]; MSt (S.Advance min) []; MSt (S.MarkActive k1) [FLostBefore];
-   MSt (S.Advance (299 * min)) []; MRecv [k1] []; MSt (S.Advance (58 * min)) []; MSt S.Sweep []; MDet ESweep].
+  [MRecv [k1] [FLostBefore; FLostAfter]; MSt [(S.Advance min)] []; MSt [(S.MarkActive k1)] [FLostBefore];
+   MSt [(S.Advance (299 * min))] []; MRecv [k1] []; MSt [(S.Advance (58 * min))] []; MSt [S.Sweep] []; MDet ESweep].
 Definition w_used := fold_left (mstep keys1 4) hist_used (S.init, []).
 Example used_accepted_and_forwarded :
   station_accepts (fst w_used) k1 = true /\ detector_forwards r1 (snd w_used) = true /\
